@@ -20,8 +20,8 @@ else:
     units = [u for u in units if not sel or u in sel]
     us = [kx.load_unit(u) for u in units]
     groups = {}
-    for u in us: groups.setdefault(u["dir"], []).append(u)
-    for d, g in groups.items():
-        res, log = kx.run_unit_group(g, tag="runall-" + d.replace(".", "_").replace("/", "_"))
+    for u in us: groups.setdefault((u["dir"], " ".join(u["flags"])), []).append(u)
+    for gi, ((d, _fl), g) in enumerate(groups.items()):
+        res, log = kx.run_unit_group(g, tag="runall-%d-" % gi + d.replace(".", "_").replace("/", "_"))
         for h, r in sorted(res.items(), key=lambda x: (x[1].get("unit"), x[0])):
             print("%-26s %-42s %-10s checks=%-5s t=%-8s %s" % (r.get("unit"), h, r["status"], r.get("checks_total"), r.get("solver_s"), (r.get("reason") or "")[:160]))
